@@ -22,11 +22,14 @@ Pool == << C2x("sort_by", Current, Ref(Current)),
            Proj(IdxE(Current, SliceN(NoneP, NoneP, IntP(-1))), Identity),
            C1x("keys", IdxE(Current, Index(0))),
            VProj(Identity, Identity),
-           C1x("to_array", Current) >>
+           C1x("to_array", Current),
+           Proj(Flat(MSL(<<IdxE(Current, Index(0)), IdxE(Current, Index(1))>>)), Identity),
+           Proj(Flat(MSL(<<IdxE(Current, Index(0)), IdxE(Current, Index(2))>>)), Identity) >>
 DocsW == << A3(I(3), I(1), I(2)),
             O1(cA, A3(O1(cB, I(3)), O1(cB, I(1)), O1(cB, I(2)))),
             A3(O2(cA, I(2), cB, I(1)), O2(cA, I(1), cC, I(5)), A2(I(2), I(1))),
-            O2(cA, A2(I(2), I(1)), cB, A2(S(cB), S(cA))) >>
+            O2(cA, A2(I(2), I(1)), cB, A2(S(cB), S(cA))),
+            A3(A1(I(1)), A2(I(2), I(3)), I(4)) >>
 Pairs2 == {<<p, q>> \in (1..Len(Pool)) \X (1..Len(Pool)) : p <= q}
 Src(e) == Render(UnparseMin(e), "tight")
 Out == SetToSeq({[k |-> "workload", e1 |-> Src(Pool[pq[1]]), e2 |-> Src(Pool[pq[2]]), p |-> pq[1], q |-> pq[2], d |-> d, doc |-> DocsW[d],
